@@ -2,17 +2,20 @@
 # runs every seeded change against the check of the property it breaks, on a scratch COPY of /repo/src
 # (VERIF_REPO), so /repo itself is never touched; prints one line per seed. Native process-level replays are
 # skipped here (they are built against /repo).
+# usage: tools/seedall.sh [k n]   — optional shard k of n (0-based), so that several shards can run side by side
 cd /verif
+k=${1:-0}; n=${2:-1}; i=0
 for d in seeded/*/; do
   id=$(basename $d)
   [ "$id" = "benign" ] && continue
+  i=$((i+1)); [ $((i % n)) -ne $k ] && continue
   prop=$(python3 -c "import json,sys; print(json.load(open('$d/meta.json')).get('property','${id%%-*}'))")
   scratch=/tmp/seedrepo_$id
   rm -rf $scratch && mkdir -p $scratch && cp -r /repo/src $scratch/src
   (cd $scratch && patch -p1 -s < /verif/$d/patch.diff) || { echo "$id patch failed"; continue; }
-  out=$(VERIF_REPO=$scratch VERIF_WORK_SUFFIX=-seed VERIF_EVIDENCE_DIR=/tmp/ev_seed VERIF_NO_PLAYBACK=1 VERIF_JOBS=${VERIF_JOBS:-8} python3 vcheck.py $prop --tier quick 2>&1)
+  out=$(VERIF_REPO=$scratch VERIF_WORK_SUFFIX=-seed-$id VERIF_EVIDENCE_DIR=/tmp/ev_seed VERIF_NO_PLAYBACK=1 VERIF_JOBS=${VERIF_JOBS:-8} python3 vcheck.py $prop --tier quick 2>&1)
   nv=$(echo "$out" | grep -c "^VIOLATION")
   rc=$(echo "$out" | grep -E "^== $prop:" | sed 's/.*exit //')
   echo "$id  property=$prop  violations=$nv  exit=$rc  $(echo "$out" | grep -m1 '   obligation' | cut -c1-110)"
-  rm -rf $scratch
+  rm -rf $scratch work/*-seed-$id
 done
